@@ -542,6 +542,47 @@ pub fn cmd_explore(opt: &HashMap<String, String>) -> i32 {
         phases.push(Phase { name: format!("type variants: all op sequences <= {depth} (+1 for accounting) over 14 operations; drop glue on key only / value only, padded inline sizes, value whose clone has a smaller size estimate"), result, roots: vec![root], alpha_len: 13, nkeys, fault_props: 0, u: u.clone() });
     }
 
+    // other instantiations of K, V, S: differential check against the reference
+    let inst_props: Props = [1, 2, 3, 4, 5, 6, 7, 10, 11, 12, 13, 14, 15, 17, 19, 20].iter().fold(0, |a, i| a | p(*i));
+    if sel & inst_props != 0 && !opt.contains_key("no-instvar") && std::env::var_os("LRUMC_NO_INSTVAR").is_none() && !verdict_reached(&phases) {
+        let depth = if thorough { 4 } else { 3 };
+        let t0 = std::time::Instant::now();
+        let ladder = if thorough { 300 } else { 40 };
+        let r = crate::instvar::explore(depth, ladder, threads);
+        let mut stats = Stats::default();
+        stats.transitions = r.checks;
+        stats.executions = r.steps;
+        *stats.rule_evals.entry("instantiation-variant rules (C01 C02 C04 C05 C07 C11 C12 C13 C14 C15 C19 C20)").or_insert(0) += r.checks;
+        for c in &r.outcomes {
+            *stats.classes.entry(c).or_insert(0) += 1;
+        }
+        let cfg = Config { hk: HK::Const, cap: None, limit: usize::MAX };
+        let root = Root { cfg, prefix: vec![], label: "8 instantiations of LruCache<K, V, S> x {constant, spread} hasher x {unbounded, tight} start".into() };
+        let violations = r
+            .violations
+            .into_iter()
+            .map(|x| VRec { props: x.props, rule: x.rule, detail: x.detail, root: 0, hist: vec![], op: None, mode: "instvar" })
+            .collect();
+        let result = ExploreResult {
+            // sequences are executions, not deduplicated states: they count as checked transitions only
+            states: 0,
+            transitions: r.checks,
+            depth_completed: depth,
+            fixpoint: true,
+            cap_hit: None,
+            stats,
+            violations,
+            machinery: None,
+            samples: vec![],
+            level_sizes: vec![],
+            wall_s: t0.elapsed().as_secs_f64(),
+            novel: vec![],
+            fault_states: 0,
+            known: Default::default(),
+        };
+        phases.push(Phase { name: format!("instantiation variants: all operation sequences <= {depth} over ~60 operations (incl. clone_from, forgotten drain) for 8 instantiations (plain data with varying size estimate and non-bitwise Clone, String/&str, zero-sized key, zero-sized value, 32-byte aligned value, default hasher, drop glue on one side)"), result, roots: vec![root], alpha_len: 60, nkeys, fault_props: 0, u: u.clone() });
+    }
+
     // C13: parametric families (the quantifier is over a number)
     if want(13) && !opt.contains_key("no-families") && !verdict_reached(&phases) {
         let fams: Vec<(String, crate::cap13::FamOut)> = vec![
@@ -851,6 +892,14 @@ pub fn cmd_replay(opt: &HashMap<String, String>) -> i32 {
         println!("  {l}");
     }
     match (mode.as_str(), op) {
+        ("instvar", _) => {
+            let r = crate::instvar::explore(3, 40, 16);
+            for x in r.violations {
+                if x.props & sel != 0 {
+                    viols.push((x.rule.to_string(), x.detail));
+                }
+            }
+        }
         ("typevar", _) => {
             let r = crate::typevar::explore(3, sel);
             for x in r.violations {
